@@ -315,7 +315,7 @@ pub fn run(cfg: &Cfg) -> Report {
     {
         let sets: Vec<MSym> = observe(|| rust_dsymbols::generators::dset_generators::DSets::new(3, 8).map(|s| from_dset(&s)).collect::<Vec<_>>()).unwrap_or_default();
         let big: Vec<&MSym> = sets.iter().filter(|s| s.n >= 6 && s.is_complete_set() && s.ops_are_involutions() && s.far_ops_commute() && s.is_connected()).collect();
-        for k in 0..cfg.tier.pick(6_000, 80_000) {
+        for k in 0..cfg.tier.pick(15_000, 80_000) {
             if big.is_empty() {
                 break;
             }
@@ -344,7 +344,7 @@ pub fn run(cfg: &Cfg) -> Report {
     report.absorb(ctx);
 
     // larger symbols: validated covers (structure + abelianisation only)
-    let bases: Vec<MSym> = symbols.iter().filter(|s| s.n <= 3).step_by(cfg.tier.pick(29, 5)).cloned().collect();
+    let bases: Vec<MSym> = symbols.iter().filter(|s| s.n <= 3).step_by(cfg.tier.pick(11, 5)).cloned().collect();
     let ctx = par_items(cfg, &bases, |ctx, _k, b| {
         if let Ok(cs) = observe(|| rust_dsymbols::covers::covers(&to_partial_dsym(b), cfg.tier.pick(4, 6)).iter().map(|c| from_dsym(c)).collect::<Vec<_>>()) {
             for c in cs {
